@@ -378,6 +378,19 @@ class Prop(PropBase):
                     if abs(got - w[idx]) > F(1, 2**50) * max(1, abs(w[idx])):
                         bad.append(f"{lab}: element {idx} off by {float(abs(got - w[idx])):.3g}")
                         break
+            # angles in other units are angles all the same: 90 deg is a quarter cycle, as an operand, a divisor or an argument
+            for ang in (90 * u.deg, (np.pi / 2) * u.rad, 6 * u.hourangle):
+                dq = F(float(ang.to_value(u.cycle)))
+                is_phase(Phase.from_angles(ang), dq, f"from_angles({ang.unit})", F(1, 2**48))
+                is_phase(Phase(ang), dq, f"Phase({ang.unit})", F(1, 2**48))
+                is_phase(pa + ang, A + dq, f"phase + {ang.unit}", F(1, 2**48))
+                qx2 = A // dq
+                if abs(A - qx2 * dq) > F(1, 10**6) and abs(A - (qx2 + 1) * dq) > F(1, 10**6):     # away from a multiple
+                    qq, rr = divmod(pa, ang)
+                    if F(float(getattr(qq, "value", qq))) != qx2:
+                        bad.append(f"divmod(phase, {ang.unit}): quotient {float(getattr(qq, 'value', qq))}, exact {float(qx2)}")
+                    is_phase(rr, A - qx2 * dq, f"divmod(phase, {ang.unit}) remainder", F(1, 2**40))
+                    is_phase(pa % ang, A - qx2 * dq, f"phase % {ang.unit}", F(1, 2**40))
             raises(lambda: Phase(a0, 1j * b1), "Phase(real, imaginary)")
             raises(lambda: Phase(1j * a0, b1), "Phase(imaginary, real)")
             raises(lambda: Phase(b0 + 1j * b0), "Phase(mixed complex)")
